@@ -779,10 +779,100 @@ fn region_roots(ctx: &Ctx) {
     }
 }
 
+/// A parent outside the crate: a window over a buffer whose `get_slice` clips a request at its
+/// end instead of refusing it (the trait documents that the returned length MUST NOT be relied
+/// on). The provided methods of the trait must still never build an accessor that reaches
+/// beyond what the parent handed out: they may refuse or panic, nothing else.
+struct Clipping {
+    base: *mut u8,
+    len: usize,
+}
+
+impl VolatileMemory for Clipping {
+    type B = ();
+    fn len(&self) -> usize {
+        self.len
+    }
+    fn get_slice(&self, offset: usize, count: usize) -> vm_memory::volatile_memory::Result<VolatileSlice<()>> {
+        if offset > self.len {
+            return Err(vm_memory::VolatileMemoryError::OutOfBounds { addr: offset });
+        }
+        let n = count.min(self.len - offset);
+        // SAFETY: [offset, offset+n) is inside the buffer
+        Ok(unsafe { VolatileSlice::new(self.base.add(offset), n) })
+    }
+}
+
+fn clipping_parent(ctx: &Ctx) {
+    let arena = Arena::new(1);
+    arena.fill_pattern(0x11);
+    let len = 32usize;
+    let start = 1024usize;
+    let parent = Clipping { base: unsafe { arena.ptr().add(start) }, len };
+    let lo = parent.base as usize;
+    let hi = lo + len;
+    let report = |api: &str, ty: &str, off: usize, n: usize, p: usize, l: usize| {
+        let key = format!("C01/clipping-parent/{}/accessor-beyond-what-the-parent-handed-out", api);
+        ctx.fail(&key, &format!("{}::<{}>({}, {}) on a 32-byte parent whose get_slice clips: accessor covers parent offsets [{}, {})", api, ty, off, n, p.wrapping_sub(lo), p.wrapping_sub(lo).wrapping_add(l)), json!({"api": api, "type": ty, "offset": off, "count": n}));
+    };
+    fn typed<T: ByteValued>(ctx: &Ctx, parent: &Clipping, lo: usize, hi: usize, ty: &str, report: &dyn Fn(&str, &str, usize, usize, usize, usize)) {
+        let sz = size_of::<T>().max(1);
+        for off in 0..=parent.len + 1 {
+            for n in (0..=parent.len / sz + 2).chain([usize::MAX / sz, isize::MAX as usize / sz]) {
+                ctx.case(true);
+                if let Ok(Ok(a)) = crate::crash::quiet_unwind(|| parent.get_array_ref::<T>(off, n).map(|a| (a.ptr_guard().as_ptr() as usize, a.len() * size_of::<T>()))) {
+                    if a.0 < lo || a.0.saturating_add(a.1) > hi {
+                        report("get_array_ref", ty, off, n, a.0, a.1);
+                    }
+                }
+            }
+            ctx.case(true);
+            if let Ok(Ok(a)) = crate::crash::quiet_unwind(|| parent.get_ref::<T>(off).map(|r| (r.ptr_guard().as_ptr() as usize, r.len()))) {
+                if a.0 < lo || a.0.saturating_add(a.1) > hi {
+                    report("get_ref", ty, off, 1, a.0, a.1);
+                }
+            }
+            // SAFETY: nothing else uses the buffer
+            if let Ok(Ok(a)) = crate::crash::quiet_unwind(|| unsafe { parent.aligned_as_ref::<T>(off).map(|r| r as *const T as usize) }) {
+                if a < lo || a + size_of::<T>() > hi {
+                    report("aligned_as_ref", ty, off, 1, a, size_of::<T>());
+                }
+            }
+            if let Ok(Ok(a)) = crate::crash::quiet_unwind(|| unsafe { parent.aligned_as_mut::<T>(off).map(|r| r as *mut T as usize) }) {
+                if a < lo || a + size_of::<T>() > hi {
+                    report("aligned_as_mut", ty, off, 1, a, size_of::<T>());
+                }
+            }
+        }
+    }
+    typed::<u8>(ctx, &parent, lo, hi, "u8", &report);
+    typed::<u16>(ctx, &parent, lo, hi, "u16", &report);
+    typed::<u32>(ctx, &parent, lo, hi, "u32", &report);
+    typed::<u64>(ctx, &parent, lo, hi, "u64", &report);
+    typed::<u128>(ctx, &parent, lo, hi, "u128", &report);
+    typed::<[u8; 3]>(ctx, &parent, lo, hi, "[u8; 3]", &report);
+    typed::<Le32>(ctx, &parent, lo, hi, "Le32", &report);
+    typed::<Be64>(ctx, &parent, lo, hi, "Be64", &report);
+    fn atomic<T: vm_memory::AtomicInteger>(ctx: &Ctx, parent: &Clipping, lo: usize, hi: usize, ty: &str, report: &dyn Fn(&str, &str, usize, usize, usize, usize)) {
+        for off in 0..=parent.len + 1 {
+            ctx.case(true);
+            if let Ok(Ok(a)) = crate::crash::quiet_unwind(|| parent.get_atomic_ref::<T>(off).map(|r| r as *const T as usize)) {
+                if a < lo || a + size_of::<T>() > hi {
+                    report("get_atomic_ref", ty, off, 1, a, size_of::<T>());
+                }
+            }
+        }
+    }
+    atomic::<AtomicU16>(ctx, &parent, lo, hi, "AtomicU16", &report);
+    atomic::<AtomicU32>(ctx, &parent, lo, hi, "AtomicU32", &report);
+    atomic::<AtomicU64>(ctx, &parent, lo, hi, "AtomicU64", &report);
+    atomic::<AtomicUsize>(ctx, &parent, lo, hi, "AtomicUsize", &report);
+}
+
 pub fn run(tier: Tier, replay: Option<String>) -> i32 {
     let ctx = crate::new_ctx("C01", tier, "model_checking", &replay);
     let thorough = tier.thorough();
-    ctx.set_rule("E1 to an empty frontier: state = (accessor kind, element type, start offset relative to the root, extent); from every reachable VolatileSlice: subslice/get_slice/compute_end_offset for every (offset, count) in (0..=L+1 + values around isize::MAX/usize::MAX + pointer-overflowing values)^2, offset/split_at for every such value, get_ref / aligned_as_ref / aligned_as_mut / get_array_ref (every count 0..=L/size+1 + overflowing counts) for 13 element types of 0..16 bytes (incl. zero-sized types of alignment 1, 2, 8 and 16, whose references must still be aligned), get_atomic_ref for all 10 AtomicInteger types; from references: to_slice; from arrays: to_slice, and ref_at, load and store for every index incl. out of range (an element outside the array must be refused by all three). Every transition runs on the real API and is compared with an interval model (accepted iff offset+count does not overflow and fits the immediate parent; child exactly [parent+o, +c); typed/atomic references only at aligned addresses). Every new state is exercised: fill through the accessor, read back, copy into it from longer sources of 1/2/3/4/8-byte elements, only its own range may change inside a canary window placed before a PROT_NONE guard page. Roots: VolatileSlice of N bytes at every address mod 8 plus one ending at the guard page; MmapRegion (anonymous and file-backed) of 1, 5, 4096, 4097 bytes through the region, guest-region and guest-memory API; ByteValued::from_slice/from_mut_slice for all lengths 0..=17 x misalignments x types.");
+    ctx.set_rule("E1 to an empty frontier: state = (accessor kind, element type, start offset relative to the root, extent); from every reachable VolatileSlice: subslice/get_slice/compute_end_offset for every (offset, count) in (0..=L+1 + values around isize::MAX/usize::MAX + pointer-overflowing values)^2, offset/split_at for every such value, get_ref / aligned_as_ref / aligned_as_mut / get_array_ref (every count 0..=L/size+1 + overflowing counts) for 13 element types of 0..16 bytes (incl. zero-sized types of alignment 1, 2, 8 and 16, whose references must still be aligned), get_atomic_ref for all 10 AtomicInteger types; from references: to_slice; from arrays: to_slice, and ref_at, load and store for every index incl. out of range (an element outside the array must be refused by all three). Every transition runs on the real API and is compared with an interval model (accepted iff offset+count does not overflow and fits the immediate parent; child exactly [parent+o, +c); typed/atomic references only at aligned addresses). Every new state is exercised: fill through the accessor, read back, copy into it from longer sources of 1/2/3/4/8-byte elements, only its own range may change inside a canary window placed before a PROT_NONE guard page. Roots: VolatileSlice of N bytes at every address mod 8 plus one ending at the guard page; MmapRegion (anonymous and file-backed) of 1, 5, 4096, 4097 bytes through the region, guest-region and guest-memory API; ByteValued::from_slice/from_mut_slice for all lengths 0..=17 x misalignments x types; a parent outside the crate whose get_slice clips a request at its end: the provided methods of VolatileMemory (get_ref, get_array_ref, aligned_as_ref/mut, get_atomic_ref) at every offset x count x 8 element types may refuse or panic but never build an accessor beyond what they were handed.");
     ctx.assume("accessor structs are Copy records of exactly (address, extent, bitmap, mmap handle): two chains reaching the same (kind, type, offset, extent) have the same futures, so merging them is sound");
     if ctx.replay_of.is_some() {
         println!("replay: the search is deterministic; re-running it and reporting whether the recorded key fails again");
@@ -809,6 +899,7 @@ pub fn run(tier: Tier, replay: Option<String>) -> i32 {
             });
         }
         s.spawn(move || from_slice_checks(ctx));
+        s.spawn(move || clipping_parent(ctx));
         #[cfg(not(feature = "xen"))]
         s.spawn(move || region_roots(ctx));
     });
